@@ -140,7 +140,7 @@ package ro
 //@   ensures [never-takes-producer-lock|C06] count(lock.mu) == 0 && count(trylock.mu) == 0
 
 //@ func (*subscriberImpl).IsClosed
-//@   props C06
+//@   props C06 C11 C03 C14
 //@   ensures [reads-status] result == (loaded(status) != 0)
 
 //@ func (*subscriberImpl).HasThrown
@@ -244,12 +244,12 @@ package ro
 // ---------------------------------------------------------------------------
 
 //@ func newSubscriberImpl
-//@   props C01 C02 C03 C08 C13
+//@   props C01 C02 C03 C08 C13 C17 C05
 //@   binds mode mu backpressure destination
 //@   scope backpressure complit destination mode mu
 //@   maypanic
 //@   track destination.* call.NewSubscription
-//@   ensures [reuse-only-if-it-synchronises-as-much|C01,C02,C08,C13] result == destination ==> mode == 1 || !is_psubscriberImpl_T_(destination) || asserted(destination).mode == mode || asserted(destination).mode == 0
+//@   ensures [reuse-only-if-it-synchronises-as-much|C01,C02,C08,C13,C17,C05] result == destination ==> mode == 1 || !is_psubscriberImpl_T_(destination) || asserted(destination).mode == mode || asserted(destination).mode == 0
 //@   ensures [fresh-gate-is-open-and-uses-the-given-lock|C01,C02] result != destination ==> result.status == 0 && result.mu == mu && result.backpressure == backpressure && result.destination == destination && result.mode == mode
 //@   ensures [fresh-gate-joins-downstream-teardown|C03] result != destination && is_Subscription(destination) ==> called(destination.Add)
 
